@@ -113,6 +113,44 @@ func (pm *pinModel) path(v ssa.Value) string {
 
 var dbgHook func(in ssa.Instruction, st *LState)
 
+// overlayMutator: a method of an overlay page struct (package storage/page, cast from a page's bytes with
+// unsafe.Pointer: HashTableBlockPage, HashTableHeaderPage) that stores into its receiver — a write of
+// page bytes that does not go through Page.Copy / Data().
+func (pm *pinModel) overlayMutator(c *ssa.Call) bool {
+	f := c.Call.StaticCallee()
+	if f == nil || f.Blocks == nil || f.Pkg == nil || f.Pkg.Pkg.Path() != libMod+"/storage/page" || f.Signature.Recv() == nil || len(f.Params) == 0 {
+		return false
+	}
+	if !strings.Contains(f.Signature.Recv().Type().String(), "HashTable") {
+		return false
+	}
+	recv := ssa.Value(f.Params[0])
+	for _, b := range f.Blocks {
+		for _, in := range b.Instrs {
+			st, ok := in.(*ssa.Store)
+			if !ok {
+				continue
+			}
+			ad := st.Addr
+			for {
+				if fa, ok := ad.(*ssa.FieldAddr); ok {
+					ad = fa.X
+					continue
+				}
+				if ia, ok := ad.(*ssa.IndexAddr); ok {
+					ad = ia.X
+					continue
+				}
+				break
+			}
+			if ad == recv {
+				return true
+			}
+		}
+	}
+	return false
+}
+
 type pinIssue struct {
 	kind, detail string
 	in           ssa.Instruction
@@ -129,7 +167,7 @@ type pinResult struct {
 // resOf maps an id/pointer path to the resource name if held.
 func resOf(st *LState, p string) (string, bool) {
 	r := st.root(p)
-	for _, suf := range []string{"", "#id", ".blockID"} {
+	for _, suf := range []string{"", "#id", ".blockID", ".blockPage"} {
 		if strings.HasSuffix(r, suf) {
 			cand := strings.TrimSuffix(r, suf)
 			if _, ok := st.held[cand]; ok {
@@ -340,9 +378,31 @@ func (pm *pinModel) analyse(fn *ssa.Function) *pinResult {
 			dbgHook(in, st)
 		}
 		if c, ok := in.(*ssa.Call); ok && len(c.Call.Args) > 0 && !c.Call.IsInvoke() {
-			if o := CalleeObj(c); o != nil && o != a.PageSetLSN && mustWrite.MustSite(in) {
+			o := CalleeObj(c)
+			if o != nil && o != a.PageSetLSN && (mustWrite.MustSite(in) || pm.overlayMutator(c)) {
 				if r, held := resOf(st, pm.path(c.Call.Args[0])); held && !strings.HasSuffix(st.held[r], "D") {
 					st.held[r] += "D"
+				}
+			}
+			// a declared transfer function that unpins the page its receiver owns with a constant clean flag
+			if f := c.Call.StaticCallee(); f != nil {
+				if _, isTransfer := pinEscapeAllow[funcKey(f)]; isTransfer && len(f.Params) > 0 {
+					if r, held := resOf(st, pm.path(c.Call.Args[0])); held && strings.HasSuffix(st.held[r], "D") {
+						recv := "p:" + f.Params[0].Name()
+						EachCall(f, func(cc ssa.CallInstruction) {
+							if CalleeObj(cc) != a.BPMUnpin {
+								return
+							}
+							args := cc.Common().Args
+							if !hasPathPrefix(pm.path(args[len(args)-2]), recv) {
+								return
+							}
+							if cv, isConst := constOf(args[len(args)-1]); isConst && !constant.BoolVal(cv) {
+								addIssue("modified-page-unpinned-clean", in, "page owned by "+r+" may have been modified under this pin and "+funcKey(f)+" unpins it with isDirty=false at "+w.InstrPos(cc))
+							}
+						})
+						st.held[r] = strings.TrimSuffix(st.held[r], "D") // the object now owns another page
+					}
 				}
 			}
 		}
